@@ -15,7 +15,7 @@ class C17(Prop):
             'MultiTestResult / ExtendedToStreamDecorator->StreamToExtendedDecorator over extended, testtools.TestResult, TestByTestResult and '
             'old-style (2.6/2.7/Twisted) recording results; histories of 0-6 tests x 1-2 runs over a 4-tag alphabet with tags(new, gone) before the '
             'run, between tests, before and after the outcome and after stopTest, incl. the startTest-less addSkip+stopTest pair; 10% damaged '
-            'histories, 5% overlapping new/gone. thorough adds every history of <= 6 calls from {startTestRun, startTest, success, stopTest, '
+            'histories, 5% overlapping new/gone, 30% of the Taggers remove-only. thorough adds every history of <= 6 calls from {startTestRun, startTest, success, stopTest, '
             'tags +a, tags -a, tags +b} over 8 graphs. non-trivial = a tags call and an outcome and an adapter; distinct = distinct input')
     assumptions = ['recording results of the extended / old flavours are the harness\'s own classes; testtools.TestResult / TestByTestResult are observed '
                    'through logging subclasses; the stream behind ExtendedToStreamDecorator is observed by a recorder next to StreamToExtendedDecorator',
